@@ -31,6 +31,8 @@ func main() {
 		runTime(os.Args[2], os.Args[3])
 	case "timechild":
 		runTimeChild(os.Args[2], os.Args[3])
+	case "rebind":
+		cmdRebind(os.Args[3:])
 	case "funcs":
 		dumpFuncs(os.Args[3])
 	case "stress":
